@@ -259,6 +259,12 @@ def run_component(ctx):
             raise vlib.Infra('%s (%s) no longer violates Observes / D2HFresh: %s' % (cfg, what, r.error))
         devs[cfg] = r.violated
     ctx.cov['mem_deviation_models'] = devs
+    # the code-object upload: intended ordering holds, the code as it is (open finding) does not
+    r = ctx.tlc_expect_ok(DIRS, 'CodeUpload.tla', 'MC_CodeUpload_ordered.cfg', workers=2, timeout=600)
+    r = ctx.tlc(DIRS, 'CodeUpload.tla', 'MC_CodeUpload_asimpl.cfg', workers=2, timeout=600, kind='demo')
+    if 'LaunchRunsResidentCode' not in r.violated:
+        raise vlib.Infra('CodeUpload.tla as implemented no longer violates LaunchRunsResidentCode: ' + str(r.error))
+    ctx.cov['code_upload_as_implemented_violates'] = r.violated
 
     # 2. the real timing platform
     n1, n2 = (60, 30) if thorough else (10, 4)
